@@ -178,6 +178,11 @@ func runCheck(args []string) int {
 			continue
 		}
 		for _, o := range r.res.Script.obls {
+			for _, kf := range known {
+				if kf.Kind == "finding" && kf.Property == prop && kf.Obligation == o.Name {
+					o.KnownFinding = true
+				}
+			}
 			wg.Add(1)
 			sem <- struct{}{}
 			go func(sc *Script, o *Obligation) {
@@ -347,7 +352,8 @@ func writeEvidence(verif, prop, tier string, seed int, spec *PropSpec, recs []ob
 	if len(samples) > 400 {
 		samples = samples[:400]
 	}
-	discharged := nOK + knownHit
+	discharged := nOK
+	nObl -= knownHit // listed known findings are not claimed; they are reported under known_findings
 	ev := map[string]any{
 		"property_id": prop,
 		"tier":        tier,
@@ -367,7 +373,7 @@ func writeEvidence(verif, prop, tier string, seed int, spec *PropSpec, recs []ob
 			"covers":                   nCover,
 			"covers_sat_or_unknown":    nCoverOK,
 			"decided_clauses":          spec.Decided,
-			"explanation":              "obligations are weakest-precondition style VCs generated from go/ssa of /repo's working tree against the contracts in the verif-tagged comment files; `discharged` counts obligations proved unsat by a solver plus listed known findings (reported separately in known_findings)",
+			"explanation":              "obligations are weakest-precondition style VCs generated from go/ssa of /repo's working tree against the contracts in the verif-tagged comment files; `obligations` counts the claimed obligations (listed known findings are excluded and reported under known_findings), `discharged` those proved unsat by a solver",
 		},
 		"assumptions": asm,
 		"wall_s":      wall,
